@@ -44,6 +44,18 @@ def _outs(p):
     return {n: np.array(c._outputs[n], dtype=float).copy() for n in c._var_rel_names["output"]}
 
 
+def _jac(p):
+    """All sub-Jacobians of the stand-alone component through the framework (what an optimiser would receive)."""
+    c = p.model.c
+    of = list(c._var_rel_names["output"])
+    wrt = list(c._var_rel_names["input"])
+    try:
+        J = p.compute_totals(of=of, wrt=wrt, return_format="flat_dict")
+    except Exception:
+        return None
+    return {"%s|%s" % k: np.array(v, dtype=float) for k, v in J.items()}
+
+
 def _same(a, b):
     for k in b:
         x, y = a[k], b[k]
@@ -60,7 +72,7 @@ def _same(a, b):
     return None
 
 
-def component_cases(prob, max_inputs=5):
+def component_cases(prob, max_inputs=5, with_jac=True):
     """Yield (class, what, deviation) for every OAS component of a model that has been run."""
     out = []
     seen = set()
@@ -86,19 +98,27 @@ def component_cases(prob, max_inputs=5):
                     fresh = _problem(comp, z)
                     fresh.run_model()
                     ref = _outs(fresh)
+                    jref = _jac(fresh) if with_jac else None
                 except Exception:
                     out.append((cls, what, "skipped", None))  # zero is not an admissible value of this input (singular system, ...)
                     continue
                 try:
                     live = _problem(comp, vals)
                     live.run_model()
+                    if with_jac:
+                        _jac(live)  # linearised at the model's inputs first
                     for n, v in z.items():
                         live.set_val(n, v)
                     live.run_model()
                     got = _outs(live)
+                    jgot = _jac(live) if with_jac else None
                 except Exception as e:
                     out.append((cls, what, "exception_only_after_history", repr(e)[:120]))
                     continue
                 bad = _same(got, ref)
+                if not bad and with_jac and jref is not None and jgot is not None:
+                    bj = _same(jgot, jref)
+                    if bj:
+                        bad = ("d " + bj[0], bj[1])
                 out.append((cls, what, "deviates" if bad else "ok", bad))
     return out
